@@ -170,11 +170,15 @@ structure Cfg where
   /-- `write_not_completed` / `write_log` create their directory only on a writable store (repair);
       the code as it is runs `mkdir` before the mode check raises -/
   roWriteNoMkdir : Bool
+  /-- `_write` puts the md5 side file in place BEFORE the record (fixes/C19-datastore-atomic-record.patch);
+      the code as it is writes the record first.  Only observable for identifiers with a directory
+      part: md5-first fails before anything is written, record-first leaves a stray record. -/
+  md5First : Bool
   deriving Repr, DecidableEq
 
 /-- the tree as it is -/
-def Cfg.asIs : Cfg := { roOpenNoMkdir := false, roWriteNoMkdir := false }
-def Cfg.repaired : Cfg := { roOpenNoMkdir := true, roWriteNoMkdir := true }
+def Cfg.asIs : Cfg := { roOpenNoMkdir := false, roWriteNoMkdir := false, md5First := false }
+def Cfg.repaired : Cfg := { roOpenNoMkdir := true, roWriteNoMkdir := true, md5First := true }
 
 structure Dir (D : Type) where
   mode : Mode
@@ -249,10 +253,12 @@ def strayWrite (s : Dir D) (sub : Sub) (file : Str) (data : D) : Option (Dir D) 
   else none
 
 /-- `_write` after the mode / existence checks -/
-def writeBody (H : D → D) (s : Dir D) (sub : Sub) (n : Names) (data : D) : Dir D × Res :=
+def writeBody (cfg : Cfg) (H : D → D) (s : Dir D) (sub : Sub) (n : Names) (data : D) : Dir D × Res :=
   -- a file name with a directory part: either `open` fails (no such directory), or the record is
-  -- written into an existing sub-directory and the md5 file (`md5/<dir>/…`) cannot be created
+  -- written into an existing sub-directory and the md5 file (`md5/<dir>/…`) cannot be created;
+  -- md5-first order: the md5 file (same directory part) fails first, nothing is written
   if n.file.contains '/' then
+    if cfg.md5First && sub != .logs then (s, .err .fileNotFound) else
     match strayWrite s sub n.file data with
     | some s1 => (s1, .err .fileNotFound)
     | none => (s, .err .fileNotFound)
@@ -262,13 +268,13 @@ def writeBody (H : D → D) (s : Dir D) (sub : Sub) (n : Names) (data : D) : Dir
   else ({ s1 with md5 := put s1.md5 n.md5 (H data) }, .done (some n.file))
 
 /-- `_write(subdir, unique_id, suffix, data)` -/
-def writeCore (H : D → D) (s0 : Dir D) (sub : Sub) (uid suffix : Str) (data : D) : Dir D × Res :=
+def writeCore (cfg : Cfg) (H : D → D) (s0 : Dir D) (sub : Sub) (uid suffix : Str) (data : D) : Dir D × Res :=
   if s0.mode = .r then (s0, .err .ioError) else
   let s := populate s0
   let n := resolve s.sfx suffix uid
   if contains s n.chk1 && s.mode = .a then (s, .err .ioError)
   else if suffix != sLog && contains s n.chk2 then (s, .done none)
-  else writeBody H s sub n data
+  else writeBody cfg H s sub n data
 
 /-- one iteration per snapshot member of `for m in list(self.not_completed)` -/
 def dropLoop (key : Str) : Dir D → List Str → Dir D × Res
@@ -297,8 +303,8 @@ def dropNc (s0 : Dir D) (uid : Str) : Dir D × Res :=
   | (s1, .done _) => dropFinish key s1
 
 /-- `write(unique_id, data)` -/
-def write (H : D → D) (s : Dir D) (uid : Str) (data : D) : Dir D × Res :=
-  match writeCore H s .root uid s.sfx data with
+def write (cfg : Cfg) (H : D → D) (s : Dir D) (uid : Str) (data : D) : Dir D × Res :=
+  match writeCore cfg H s .root uid s.sfx data with
   | (s1, .err e) => (s1, .err e)
   | (s1, .done m) =>
     match dropNc s1 uid with
@@ -311,7 +317,7 @@ def write (H : D → D) (s : Dir D) (uid : Str) (data : D) : Dir D × Res :=
 /-- `write_not_completed(unique_id, data)`; code as it is: the `mkdir` precedes every check -/
 def writeNc (cfg : Cfg) (H : D → D) (s : Dir D) (uid : Str) (data : D) : Dir D × Res :=
   let s0 := if cfg.roWriteNoMkdir && s.mode = .r then s else { s with ncDir := true }
-  match writeCore H s0 .nc uid sJson data with
+  match writeCore cfg H s0 .nc uid sJson data with
   | (s1, .done (some f)) =>
     -- a record that is rewritten is already listed
     (if s1.ncCache.contains f then s1 else { s1 with ncCache := s1.ncCache ++ [f] }, .done (some (ncPrefix ++ f)))
@@ -320,7 +326,7 @@ def writeNc (cfg : Cfg) (H : D → D) (s : Dir D) (uid : Str) (data : D) : Dir D
 /-- `write_log(unique_id, data)`; code as it is: the `mkdir` precedes every check -/
 def writeLog (cfg : Cfg) (H : D → D) (s : Dir D) (uid : Str) (data : D) : Dir D × Res :=
   let s0 := if cfg.roWriteNoMkdir && s.mode = .r then s else { s with logsDir := true }
-  writeCore H s0 .logs uid sLog data
+  writeCore cfg H s0 .logs uid sLog data
 
 /-- operations of a history -/
 inductive Op (D : Type)
@@ -333,7 +339,7 @@ inductive Op (D : Type)
   | unlock                    -- SQLite store only (`unlock()`); nothing on a directory store
 
 def step (cfg : Cfg) (H : D → D) (s : Dir D) : Op D → Dir D × Res
-  | .write uid d => write H s uid d
+  | .write uid d => write cfg H s uid d
   | .writeNc uid d => writeNc cfg H s uid d
   | .writeLog uid d => writeLog cfg H s uid d
   | .drop uid => dropNc s uid
